@@ -240,6 +240,11 @@ type ParallelExplorer struct {
 	Visit func(job ExecJob, res *ExecResult, crash string, hang bool)
 	// Prune, if set, decides whether to expand alternative alt at step i of a finished execution.
 	Prune func(res *ExecResult, i, alt int) bool
+	// AfterViolation, if set and true, makes a diverging replay abandon that subtree instead of aborting the
+	// run: a defect already reported may itself introduce nondeterminism (duplicated goroutines, a buffer with
+	// two owners). Without a reported violation a divergence stays a harness error (exit 2).
+	AfterViolation func() bool
+	Diverged       int64
 
 	Stats   Stats
 	Capped  bool
@@ -302,6 +307,10 @@ func (e *ParallelExplorer) result(it stackItem, raw []byte, crash string, hang b
 		e.mu.Unlock()
 	}()
 	if res.Diverged != "" {
+		if e.AfterViolation != nil && e.AfterViolation() {
+			e.Diverged++
+			return
+		}
 		HarnessError("nondeterministic replay of scenario %s arg %s prefix %v: %s", job.Scenario, job.Arg, job.Prefix, res.Diverged)
 	}
 	e.Stats.Executions++
